@@ -1,6 +1,7 @@
 package checks
 
 import (
+	"strconv"
 	"strings"
 
 	"verif/harness/core"
@@ -113,6 +114,10 @@ func evalC02(c *core.Ctx, e *eco.Eco, op string, args []string) []core.Violation
 	syn, ok := CmpTable[e.Name]
 	if !ok {
 		return nil
+	}
+	if op == "volume-ranges" {
+		v, _ := strconv.Atoi(args[1])
+		return volumeRanges(c, c.NewW(), e, syn, args[0], v)
 	}
 	rs, ps := args[0], args[1]
 	pv, err, pn := e.SafeNewVersion(ps)
@@ -245,6 +250,12 @@ func runC02(c *core.Ctx, ck *Check) {
 			}
 			w.Count("collision_pairs_as_bounds", 1)
 			w.Count("collision_hash:"+cp.Hash, 1)
+		}
+	})
+	// state that builds up on the range side (volume.go)
+	c.Parallel(len(ecosC02), func(w *core.W, i int) {
+		for _, v := range volumeRanges(c, w, ecosC02[i], CmpTable[ecosC02[i].Name], "c02", c.Scale(300000, 1500000)) {
+			w.Report(v)
 		}
 	})
 	c.Parallel(len(jobs), func(w *core.W, i int) {
